@@ -188,7 +188,13 @@ class FormulaGenerator(ABC, Generic[QuantityT]):
                 predecessors = graph.predecessors(component.component_id)
                 if len(predecessors) == 1:
                     predecessor = predecessors.pop()
-                    if self._is_primary_fallback_pair(predecessor, component):
+                    # The meter can only replace the components behind it, if all of
+                    # them were requested, otherwise it measures more than requested.
+                    if self._is_primary_fallback_pair(
+                        predecessor, component
+                    ) and graph.successors(predecessor.component_id).issubset(
+                        components
+                    ):
                         # predecessor is primary component and the component is one of the
                         # fallbacks components.
                         fallbacks.setdefault(predecessor, set()).add(component)
